@@ -564,6 +564,8 @@ class Interp:
             if v.value is None:
                 return []
             if isinstance(v.value, str):
+                if len(v.value) <= MAX_ENTRIES:
+                    return [(Const(ch), TRUE) for ch in v.value]
                 return [(Sym(("char", repr(v.value))), TRUE)]
             return None
         if isinstance(v, Sym):
@@ -848,6 +850,8 @@ class Interp:
             if isinstance(a, Coll) and isinstance(b, (Coll, Tup, Sym)) and isinstance(e.op, ast.Sub):
                 # set difference: the elements of `a` that are kept (which ones is not modelled)
                 return Coll(a.kind, [(x, f_and([gx, self.mk_atom(f"kept-by-difference({show_term(term_of(x))})", kind="setop", node=e)])) for x, gx in a.entries], self.serial())
+            if isinstance(a, Const) and isinstance(b, Const) and isinstance(a.value, int) and isinstance(b.value, int) and not isinstance(a.value, bool) and not isinstance(b.value, bool) and isinstance(e.op, (ast.Add, ast.Sub, ast.Mult)):
+                return Const(a.value + b.value if isinstance(e.op, ast.Add) else a.value - b.value if isinstance(e.op, ast.Sub) else a.value * b.value)
             if isinstance(e.op, ast.Add) and isinstance(self.as_tuple(a) or a, Tup) and isinstance(self.as_tuple(b) or b, Tup):
                 return Tup((*(self.as_tuple(a) or a).items, *(self.as_tuple(b) or b).items))  # type: ignore[union-attr]
             if isinstance(a, Const) and isinstance(b, Const) and isinstance(e.op, ast.Add) and isinstance(a.value, str) and isinstance(b.value, str):
@@ -964,6 +968,15 @@ class Interp:
     def subscript(self, v: Val, sl: ast.expr, fr: Frame, node: ast.AST) -> Val:
         if isinstance(v, Alt):
             return self.mk_alt([(g, self.subscript(o, sl, fr, node)) for g, o in v.options])
+        if isinstance(sl, ast.Slice) and isinstance(v, Const) and isinstance(v.value, str):
+            bs = [self.eval(b, fr) if b is not None else Const(None) for b in (sl.lower, sl.upper, sl.step)]
+            if all(isinstance(b, Const) and (b.value is None or (isinstance(b.value, int) and not isinstance(b.value, bool))) for b in bs):
+                try:
+                    return Const(v.value[slice(*[b.value for b in bs])])
+                except Exception:  # noqa: BLE001
+                    pass
+            if any(isinstance(b, Alt) for b in bs) and all(isinstance(b, (Const, Alt)) for b in bs):
+                pass
         if isinstance(sl, ast.Slice):
             v = self.as_tuple(v) or v
             if isinstance(v, (Coll, Tup)):
@@ -1001,6 +1014,8 @@ class Interp:
             return self.mk_alt([(g, self._index_const(v, o.value, node)) for g, o in idx.options])
         if isinstance(v, Tup) and isinstance(idx, Const) and isinstance(idx.value, int) and -len(v.items) <= idx.value < len(v.items):
             return v.items[idx.value]
+        if isinstance(v, Const) and isinstance(v.value, str) and isinstance(idx, Const) and isinstance(idx.value, int) and not isinstance(idx.value, bool) and -len(v.value) <= idx.value < len(v.value):
+            return Const(v.value[idx.value])
         if isinstance(v, DictV):
             ti = term_of(idx)
             hits = [(g, x) for k, x, g in v.entries if term_of(k) == ti]
@@ -1457,6 +1472,15 @@ class Interp:
             for k, v in kwargs.items():
                 d.entries.append((Const(k), v, TRUE))
             return d
+        if name == "len" and isinstance(a0, Const) and isinstance(a0.value, str):
+            return Const(len(a0.value))
+        if name == "range" and args and all(isinstance(a, Const) and isinstance(a.value, int) and not isinstance(a.value, bool) for a in args) and not kwargs:
+            try:
+                r = range(*[a.value for a in args])
+                if len(r) <= MAX_ENTRIES:
+                    return self.lift(list(r))
+            except Exception:  # noqa: BLE001
+                pass
         if name == "len":
             if isinstance(a0, (Coll, DictV)) and all(g == TRUE for *_x, g in a0.entries) and not any(isinstance(x[0], Sym) and x[0].term[0] in ("elem", "key", "val") for x in a0.entries):
                 return Const(len(a0.entries))
@@ -1512,7 +1536,7 @@ class Interp:
         if name == "enumerate" and a0 is not None:
             out = Coll("iter", [], self.serial())
             for n, (x, g) in enumerate(self.iterate(a0) or []):
-                out.entries.append((Tup((Const(n) if isinstance(a0, (Coll, Tup)) else Sym(("idx", n)), x)), g))
+                out.entries.append((Tup((Const(n) if isinstance(a0, (Coll, Tup)) or (isinstance(a0, Const) and isinstance(a0.value, str)) else Sym(("idx", n)), x)), g))
             return out
         if name == "isinstance" and len(args) == 2:
             return BoolF(self.mk_atom(f"isinstance({show_term(term_of(args[0]))}, {show_term(term_of(args[1]))})", kind="isinstance", node=node))
@@ -1569,6 +1593,32 @@ class Interp:
             outs.append((g, self._by_name(o, fn) if isinstance(o, (Const, Alt)) else Sym(("?",))))
             self.path.pop()
         return self.mk_alt(outs)
+
+    def lower(self, v: Val) -> tuple:
+        """(True, python value) for a fully concrete value (constants, tuples / unconditional lists and sets of them)."""
+        if isinstance(v, Const) and not (isinstance(v.value, tuple) and v.value[:1] == ("enum",)):
+            return True, v.value
+        if isinstance(v, Tup):
+            parts = [self.lower(x) for x in v.items]
+            return all(ok for ok, _x in parts), tuple(x for _ok, x in parts)
+        if isinstance(v, Coll) and all(g == TRUE for _x, g in v.entries):
+            parts = [self.lower(x) for x, _g in v.entries]
+            if all(ok for ok, _x in parts):
+                try:
+                    return True, (set if v.kind == "set" else list)(x for _ok, x in parts)
+                except TypeError:
+                    return False, None
+        return False, None
+
+    def lift(self, x: object) -> Val:
+        if isinstance(x, tuple):
+            return Tup(tuple(self.lift(y) for y in x))
+        if isinstance(x, (list, set, frozenset)):
+            items = sorted(x, key=repr) if isinstance(x, (set, frozenset)) else x
+            c = Coll("set" if isinstance(x, (set, frozenset)) else "list", [(self.lift(y), TRUE) for y in items], self.serial())
+            c.literal = not c.entries  # type: ignore[attr-defined]
+            return c
+        return Const(x)
 
     def copy_coll(self, v: Val, kind: str) -> Val:
         if isinstance(v, Alt):
@@ -1762,6 +1812,13 @@ class Interp:
             if name in ("remove", "discard", "clear", "sort", "reverse"):
                 self.atom_info.setdefault(f"removed(coll#{recv.serial})", {"kind": "removed", "node": node, "what": name, "args": list(args)})
                 return Const(None)
+            if name in ("isdisjoint", "issubset", "issuperset") and a0 is not None:
+                (ok1, x1), (ok2, x2) = self.lower(recv), self.lower(self.copy_coll(a0, "list") if not isinstance(a0, Coll) else a0)
+                if ok1 and ok2:
+                    try:
+                        return Const(getattr(set(x1), name)(set(x2)))
+                    except TypeError:
+                        pass
             if name in ("copy",):
                 return Coll(recv.kind, list(recv.entries), self.serial())
             if name in ("union",):
@@ -1806,6 +1863,13 @@ class Interp:
                 return Const(None)
             if name == "copy":
                 return DictV(list(recv.entries), self.serial())
+        if isinstance(recv, Const) and isinstance(recv.value, str) and name in _PURE_STR_METHODS and not kwargs:
+            lowered = [self.lower(a) for a in args]
+            if all(ok for ok, _x in lowered):
+                try:
+                    return self.lift(getattr(recv.value, name)(*[x for _ok, x in lowered]))
+                except Exception:  # noqa: BLE001 - the call would raise at run time: leave it symbolic
+                    pass
         if isinstance(recv, Const) and isinstance(recv.value, str):
             if name in ("startswith", "endswith") and isinstance(a0, Const) and isinstance(a0.value, str):
                 return Const(getattr(recv.value, name)(a0.value))
@@ -2065,6 +2129,10 @@ def _own(fn: ast.AST):
     return own_nodes(fn)
 
 
+_PURE_STR_METHODS = {
+    "startswith", "endswith", "split", "rsplit", "partition", "rpartition", "replace", "strip", "lstrip", "rstrip", "lower", "upper", "count",
+    "find", "rfind", "removeprefix", "removesuffix", "join", "isidentifier", "title", "casefold", "splitlines", "zfill",
+}
 _TABLE_WRAPPERS = {"tuple", "list", "set", "frozenset", "dict"}
 _TABLE_MAKERS = {"itemgetter", "attrgetter", "methodcaller", "partial", "namedtuple", "NamedTuple"}  # pure constructors of callables / record classes
 
